@@ -244,6 +244,23 @@ func c05One(res *explore.Result, s string, verbose bool) arithKind {
 		wantText := fmt.Sprintf("division by zero at f:%d:%d", line, col)
 		if err == nil || err.Error() != wantText {
 			res.Violate("division-by-zero-report", fmt.Sprintf("Evaluate(%s) = %v, %v; expected error %q (operator at offset %d)", q(s), val, err, wantText, dzAt), cs)
+		} else {
+			// history: the same expression as SECOND file of a set whose first file was evaluated (and failed) just
+			// before; then the first file once more. Every report must name its own file's line:column.
+			fa, fb := text.NewFile("f", []byte("2\n/0")), text.NewFile("f", []byte(s))
+			fs2 := parsley.NewFileSet(fa, fb)
+			step := func(f *text.File, want string, what string) {
+				var e2 error
+				if pm := guard(func() { _, e2 = parsley.Evaluate(parsley.NewContext(fs2, text.NewReader(f)), arithRoot) }); pm != "" {
+					res.Violate("panic", fmt.Sprintf("two-file history, %s: panic %s", what, pm), cs)
+				} else if e2 == nil || e2.Error() != want {
+					res.Violate("division-by-zero-report", fmt.Sprintf("file set [\"2\\n/0\", %s], %s: got %v, expected %q", q(s), what, e2, want), cs)
+				}
+			}
+			step(fa, "division by zero at f:2:1", "first file evaluated first")
+			step(fb, wantText, "second file evaluated after the first")
+			step(fa, "division by zero at f:2:1", "first file evaluated again")
+			res.Add("two_file_histories", 1)
 		}
 	case arithIllFormed:
 		if err == nil {
@@ -300,7 +317,7 @@ func c05Families() []string {
 		out = append(out, strings.Repeat("(", depth)+"1+2"+strings.Repeat(")", depth-1))            // unbalanced
 		out = append(out, strings.Repeat("2*(", depth)+"4/(1-1)"+strings.Repeat(")", depth)+"\n+1") // division by zero deep inside
 	}
-	out = append(out, "1\n+\n2\n*\n3", "10/(5-5)", "1/0/0", "(1/0)+(2/0)", "2/(1-1)+3/0", "-3--3", "+1++1", "9223372036854775807+1", "-9223372036854775807-2", "1\n\n\n/\n0")
+	out = append(out, "1\n+\n2\n*\n3", "10/(5-5)", "1/0/0", "(1/0)+(2/0)", "2/(1-1)+3/0", "-3--3", "+1++1", "9223372036854775807+1", "-9223372036854775807-2", "-9223372036854775808", "(-9223372036854775808+1)/1-0", "7+-9223372036854775808/2", "9223372036854775807", "-9223372036854775808/-1", "0-9223372036854775807-1", "1\n\n\n/\n0")
 	return out
 }
 
